@@ -127,6 +127,8 @@ class SymExec:
         self.imprecise = []   # constructs the interpreter could only over-approximate (rules downgrade absence-based verdicts)
         self.flagfacts = {}  # (bool key, value) -> tuple of fact sets, one per assignment of that literal (alternatives)
         self.pc = []       # path condition: (if-node, branch, cond value) of the enclosing conditionals
+        self._inline_stack = []
+        self.inlined = []     # (callee def, call node) of crate-local helpers interpreted in place
 
     # ------------------------------------------------------------------ utilities
     def log(self, kind, **kw):
@@ -1236,6 +1238,9 @@ class SymExec:
             if nm == "enumerate" and not it["args"]:
                 a = self.iter_shape(recv)
                 return ("enum", a) if a is not None else None
+            if nm == "map" and len(it["args"]) == 1 and it["args"][0].get("k") == "Closure":
+                a = self.iter_shape(recv)
+                return ("map", a, it["args"][0]) if a is not None else None
             return None
         r = self.range_shape(it)
         if r is not None:
@@ -1269,7 +1274,7 @@ class SymExec:
             return sh[1]
         if sh[0] == "buf":
             return sh[3]
-        if sh[0] == "enum":
+        if sh[0] in ("enum", "map"):
             return self.shape_unit(sh[1])
         if sh[0] == "zip":
             return self.shape_unit(sh[1]) or self.shape_unit(sh[2])
@@ -1284,7 +1289,64 @@ class SymExec:
             return (i, self.shape_value(sh[1], i))
         if sh[0] == "zip":
             return (self.shape_value(sh[1], i), self.shape_value(sh[2], i))
+        if sh[0] == "map":
+            return self.apply_closure(sh[2], [self.shape_value(sh[1], i)])
         return self.fresh("it")
+
+    def apply_closure(self, cl, vals):
+        """interpret a closure literal in place (closures passed to iterator adaptors: pure, called once per element)"""
+        ps = cl.get("params") or []
+        if len(ps) != len(vals):
+            raise ValueError("closure arity")
+        for p_, v_ in zip(ps, vals):
+            self.bind_iter_pat(p_, v_)
+        return self.eval(cl["body"])
+
+    def iter_reduce(self, e):
+        """`<element-wise iterator>.fold(init, |acc, x| ..)`, `.sum()`, `.for_each(|x| ..)` as component loops"""
+        name = e["name"]
+        sh = self.iter_shape(e["recv"])
+        if sh is None:
+            return NotImplemented
+        lid = "it%s" % (e.get("sp") or id(e))
+        unit = self.shape_unit(sh)
+        if name == "for_each" and len(e["args"]) == 1 and e["args"][0].get("k") == "Closure":
+            cl = e["args"][0]
+            pseudo = {"id": lid, "body": cl["body"], "pat": None}
+            return self.for_component(pseudo, unit, binder=lambda i: [self.bind_iter_pat(p_, v_) for p_, v_ in zip(cl["params"], [self.shape_value(sh, i)])])
+        i_atom = "i~%s" % lid
+        if name == "sum" and not e["args"]:
+            self.comp.append((i_atom, unit))
+            try:
+                term = self.shape_value(sh, Poly.atom(i_atom))
+            finally:
+                self.comp.pop()
+            if isinstance(term, Ref) and term.elem:
+                term = self.read_lv(("elem", term.key, term.block, term.unit))
+            if not isinstance(term, Poly):
+                return NotImplemented
+            self.log("reduce", key=None, entry=Poly.const(0), term=term, loop=lid)
+            return opaque("sum", [term])
+        if name == "fold" and len(e["args"]) == 2 and e["args"][1].get("k") == "Closure":
+            init = self.eval(e["args"][0])
+            if not isinstance(init, Poly):
+                return NotImplemented
+            ph = "acc~fold~%s" % lid
+            self.comp.append((i_atom, unit))
+            try:
+                v = self.apply_closure(e["args"][1], [Poly.atom(ph), self.shape_value(sh, Poly.atom(i_atom))])
+            finally:
+                self.comp.pop()
+            if not isinstance(v, Poly):
+                return NotImplemented
+            g = v - Poly.atom(ph)
+            if ph in g.atoms():
+                return opaque("fold", [init, v])
+            if g.is_zero():
+                return init
+            self.log("reduce", key=None, entry=init, term=g, loop=lid)
+            return init + opaque("sum", [g])
+        return NotImplemented
 
     def bind_iter_pat(self, pat, v):
         k = pat["k"]
@@ -1374,6 +1436,69 @@ class SymExec:
         return Poly.atom("unit")
 
     # ---- calls
+    # crate-local helpers that rules model themselves (summaries, dedicated analyses); everything else that is private
+    # to the crate is interpreted in place, so extracting a few lines into a helper does not change what a rule sees
+    OPAQUE_HELPERS = ("methods::bdf::", "matrix::", "<matrix::", "dense::", "<dense::", "methods::hinit", "methods::Tolerance", "<methods::Tolerance")
+
+    def inline_ok(self, d, rec):
+        if not str(rec.get("vis", "")).startswith("Restricted"):
+            return False
+        if d.startswith(self.OPAQUE_HELPERS) or "::{closure" in d:
+            return False
+        return rec.get("dk") in ("Fn", "AssocFn") and rec.get("has_body")
+
+    def try_inline(self, e, d, arg_nodes):
+        rec = self.facts.fns.get(d)
+        body = self.facts.bodies.get(d)
+        if rec is None or body is None or not self.inline_ok(d, rec):
+            return NotImplemented
+        if d in self._inline_stack or len(self._inline_stack) >= 2 or d == self.fn_def:
+            return NotImplemented
+        params = body.get("params") or []
+        if len(params) != len(arg_nodes) or any(p.get("k") != "PBind" for p in params):
+            return NotImplemented
+        snap = (dict(self.st) if self.st is not None else None, len(self.exits), len(self.trace), list(self.pc), list(self.comp),
+                self.h.snapshot() if self.h else None)
+        self._inline_stack.append(d)
+        try:
+            vals = []
+            for a in arg_nodes:
+                if a.get("k") in ("Path", "Field") and ("&" in (a.get("adj") or "") or "M" in (a.get("adj") or "")):
+                    lv = self.lvalue(a)
+                    vals.append(Ref(lv[1], None, "M" in (a.get("adj") or "")) if lv[0] == "key" else self.eval(a))
+                else:
+                    vals.append(self.eval(a))
+            for p_, v_ in zip(params, vals):
+                self.bind_pat(p_, v_)
+            n_ex = len(self.exits)
+            v = self.eval(body["body"])
+            rets = [x for x in self.exits[n_ex:] if x[0] == "return"]
+            self.exits[n_ex:] = [x for x in self.exits[n_ex:] if x[0] != "return"]
+            states = ([self.st] if self.st is not None else []) + [x[2] for x in rets]
+            rvals = ([v] if self.st is not None else []) + [x[3] for x in rets]
+            self.st = self.join_states(states)
+            if not rvals:
+                out = Poly.atom("never")
+            else:
+                out = rvals[0]
+                for w in rvals[1:]:
+                    out = out if (type(out) is type(w) and out == w) else self.join_val(out, w, "ret")
+            self.inlined.append((d, e))
+            self.log("inline", callee=d, node=e)
+            return out if out is not None else Poly.atom("unit")
+        except Exception:
+            st0, n_ex0, n_tr0, pc0, comp0, hs = snap
+            self.st = st0
+            del self.exits[n_ex0:]
+            del self.trace[n_tr0:]
+            self.pc = pc0
+            self.comp = comp0
+            if self.h and hs is not None:
+                self.h.restore(hs)
+            return NotImplemented
+        finally:
+            self._inline_stack.pop()
+
     def e_Call(self, e):
         d = e.get("def") or ""
         if self.h:
@@ -1381,6 +1506,9 @@ class SymExec:
             if r is not NotImplemented:
                 return r
         r = self.std_call(e, d)
+        if r is not NotImplemented:
+            return r
+        r = self.try_inline(e, d, e["args"])
         if r is not NotImplemented:
             return r
         return self.unknown_call(e, d, e["args"])
@@ -1392,6 +1520,9 @@ class SymExec:
             if r is not NotImplemented:
                 return r
         r = self.std_method(e, d)
+        if r is not NotImplemented:
+            return r
+        r = self.try_inline(e, d, [e["recv"]] + e["args"])
         if r is not NotImplemented:
             return r
         return self.unknown_call(e, d, [e["recv"]] + e["args"])
@@ -1442,6 +1573,18 @@ class SymExec:
         name = e["name"]
         recv = e["recv"]
         rty = recv.get("ty", "")
+        if name in ("fold", "sum", "for_each"):
+            snap = (dict(self.st) if self.st is not None else None, len(self.trace), len(self.comp))
+            try:
+                r = self.iter_reduce(e)
+            except Exception:
+                r = NotImplemented
+            if r is not NotImplemented:
+                return r
+            self.st = snap[0]
+            del self.trace[snap[1]:]
+            del self.comp[snap[2]:]
+            self.imprecise.append(("iterator-%s" % name, e))
         if name == "push" and len(e["args"]) == 1:
             lv = self.lvalue(recv)
             v = self.eval(e["args"][0])
